@@ -296,6 +296,106 @@ fn gen(tier: &str, seed: u64, out: &mut dyn FnMut(String)) {
     // the model itself at the 2^14 threshold (2.2 s per case)
     out(format!("transpose {} none", centred(&[130, 130])));
     if thorough { out(format!("moveaxis {} 0 -1", centred(&[10, 11, 12, 13]))); out(format!("transpose {} none", centred(&[128, 129]))); out(format!("swapaxes {} 0 1", centred(&[129, 131]))); }
+
+    // ================================================================== robustness streams, part 3
+    // ---- (12) element layout: EVERY case above and below also runs on element types of 2, 3, 5, 6, 9, 12, 16, 20, 32, 36, 40, 48
+    //      bytes (`on_layouts_arr!` + `layout_images` in exec).  Added here: matrices around the tile edges that `64 / size_of::<T>()`
+    //      gives for those sizes (5, 7, 10, 12, 21, 32) — every r, c in 1..=6 with all spellings of the flip, and lengths around 10,
+    //      12, 21, 42, 63 in both positions; rank 3 with such lengths in every position
+    for r in 1..=6usize { for c in 1..=6usize { flips(&centred(&[r, c]), out); } }
+    let tl = [5usize, 10, 11, 12, 13, 20, 21, 22, 42, 43, 63];
+    for (ri, &r) in tl.iter().enumerate() { for (ci, &c) in tl.iter().enumerate() {
+        if r * c > 1000 || (!thorough && (ri + 2 * ci) % 3 != 0) { continue; }
+        let a = centred(&[r, c]);
+        out(format!("transpose {a} none")); out(format!("swapaxes {a} 0 -1")); out(format!("rollaxis {a} 1 none")); out(format!("moveaxis {a} -2 1")); out(format!("transpose {a} 0,1"));
+    } }
+    for s in [vec![5usize, 21, 2], vec![2, 5, 21], vec![21, 2, 5], vec![10, 10, 3], vec![3, 22, 11], vec![6, 5, 4, 3]] { all_ops_on(&s, &centred(&s), &mut rng, !thorough, out); }
+
+    // ---- (13) values related in a way random data never is: all elements equal (a constant source — only the shape can go wrong,
+    //      and a "nothing to do" shortcut forgets exactly that), all zero, and mixtures of tags that are `==` in some image but not
+    //      identical (tags 0 / 5 are -0.0 / +0.0 in the bit-wise compared f64 image, 0 / 8 the same -0.0, 2 / 10 two NaNs), in the
+    //      Thue–Morse arrangement (no period for a stride to fall into)
+    let tm = |k: usize| (k.count_ones() % 2) as usize;
+    let mut vshapes: Vec<Vec<usize>> = vec![vec![1], vec![4], vec![2, 3], vec![3, 2], vec![1, 5], vec![2, 2], vec![3, 3], vec![2, 3, 4], vec![4, 1, 3], vec![2, 2, 2, 2], vec![8, 9], vec![17, 16], vec![33, 31], vec![3, 8, 5], vec![2, 0, 3]];
+    if thorough { vshapes.extend(vec![vec![64, 65], vec![5, 5, 5, 5], vec![1, 300], vec![130, 9]]); }
+    for s in &vshapes {
+        let (nd, n) = (s.len(), s.iter().product::<usize>());
+        let spell_arr = |vals: Vec<i64>| format!("{}:{}", show_list(s), show_list(&vals));
+        let mut arrs = vec![spell_arr(vec![7; n]), spell_arr(vec![0; n])];
+        for (x, y) in [(0i64, 5i64), (0, 8), (2, 10), (5, 13)] { arrs.push(spell_arr((0..n).map(|k| if tm(k) == 0 { x } else { y }).collect())); }
+        for (ai, a) in arrs.iter().enumerate() {
+            out(format!("transpose {a} none"));
+            let rot: Vec<usize> = (0..nd).map(|k| (k + 1) % nd).collect();
+            out(format!("transpose {a} {}", show_list(&rot)));
+            out(format!("transpose {a} {}", show_list(&(0..nd).collect::<Vec<_>>())));
+            if nd >= 2 {
+                out(format!("swapaxes {a} 0 -1")); out(format!("moveaxis {a} 0 -1")); out(format!("rollaxis {a} {} none", nd - 1));
+                out(format!("chain {a} transpose=none|swapaxes=0=1|moveaxis=-1=0"));
+                if ai >= 2 && nd >= 3 { out(format!("swapaxes {a} 1 2")); out(format!("moveaxis {a} 0,1 {},{}", nd - 1, nd - 2)); }
+            }
+        }
+    }
+
+    // ---- (15) axis arguments at the ends of the isize range and k * 2^64 / small + c (a product or sum with them wraps modulo 2^64
+    //      into the legal range); every one must be refused, and is directly followed by a valid call
+    for s in [vec![3usize], vec![2, 3], vec![2, 1, 3], vec![2, 3, 2, 2]] {
+        let (a, nd) = (tag(&s), s.len());
+        let mut bads: Vec<isize> = vec![isize::MAX, isize::MAX - 1, isize::MIN, isize::MIN + 1, isize::MIN + nd as isize, isize::MIN + nd as isize - 1, -(nd as isize) - 1, 1 << 62, -(1 << 62)];
+        for c in 0..nd as isize { for d in [3isize, 4, 5, 6, 8, 12] { bads.push(((1i128 << 64) / d as i128) as isize + c); } bads.push(isize::MAX - c); bads.push(isize::MIN + (1 << 32) + c); }
+        for bad in bads {
+            out(format!("swapaxes {a} {bad} 0")); out(format!("swapaxes {a} 0 {bad}")); out(format!("rollaxis {a} {bad} none")); out(format!("rollaxis {a} 0 {bad}"));
+            out(format!("moveaxis {a} {bad} 0")); out(format!("moveaxis {a} 0 {bad}"));
+            let mut ax: Vec<isize> = (0..nd as isize).collect(); ax[nd - 1] = bad; out(format!("transpose {a} {}", show_list(&ax)));
+            out(format!("transpose {a} none"));
+        }
+    }
+
+    // ---- (11) giant shapes: more than 2^20 elements (a blocked / tiled / strided path that only starts there and has a wrong tail,
+    //      corner, lane offset or block-start coordinate).  `giant iota:SHAPE step`: the driver answers the model's axis order, the
+    //      harness compares every element in place with the validated native gather.  Ranks 1..4 (5 in thorough); the moved axis
+    //      first / in the middle / last; the identity order; extents that are / are not multiples of 64; exactly 2^20 elements and
+    //      2^20 + a little; every operation.  Quick: one to three calls per shape; thorough: every rotation, swaps, moves, rolls.
+    let mut giants = giant_shapes();
+    giants.extend(vec![vec![1024, 1024], vec![1024, 1025], vec![1088, 1024], vec![128, 128, 64], vec![128, 65, 128], vec![33, 32, 31, 33], vec![2, 2, 2, 131_073], vec![16, 65, 16, 64], vec![1, 1_048_577], vec![1_048_583, 1]]);
+    if thorough { giants.extend(vec![vec![16, 16, 16, 16, 17], vec![3, 5, 7, 11, 13, 73], vec![2048, 1023], vec![2, 1_048_575]]); }
+    let quick_calls: &[(&[usize], &[&str])] = &[
+        (&[1 << 20 | 5], &["transpose=none"]),
+        (&[3, 400_001], &["transpose=none", "transpose=0,1"]),
+        (&[400_001, 3], &["swapaxes=0=-1"]),
+        (&[1031, 1033], &["moveaxis=0=-1", "transpose=-2,-1"]),
+        (&[2, 131_073, 4], &["transpose=1,2,0", "swapaxes=1=2"]),
+        (&[5, 70_000, 4], &["moveaxis=1=0", "transpose=0,1,2"]),
+        (&[600, 2, 1000], &["rollaxis=2=0", "transpose=none"]),
+        (&[2, 3, 174_763], &["moveaxis=-1=0"]),
+        (&[65, 129, 127], &["transpose=1,0,2", "rollaxis=1=none"]),
+        (&[1024, 1024], &["transpose=none"]),
+        (&[1024, 1025], &["rollaxis=1=none"]),
+        (&[1088, 1024], &["transpose=1,0"]),
+        (&[128, 65, 128], &["transpose=2,0,1", "swapaxes=0=1"]),
+        (&[33, 32, 31, 33], &["transpose=none", "moveaxis=0,1=3,2"]),
+        (&[2, 2, 2, 131_073], &["rollaxis=3=1", "transpose=0,1,2,3"]),
+        (&[16, 65, 16, 64], &["transpose=3,1,0,2", "swapaxes=1=2"]),
+        (&[1, 1_048_577], &["transpose=none"]),
+    ];
+    for (gi, s) in giants.iter().enumerate() {
+        let (a, nd) = (format!("iota:{}", show_list(s)), s.len());
+        if !thorough {
+            for (qs, calls) in quick_calls { if *qs == &s[..] { for c in *calls { out(format!("giant {a} {c}")); } } }
+            continue;
+        }
+        let mut calls: Vec<String> = vec!["transpose=none".into(), format!("transpose={}", show_list(&(0..nd).collect::<Vec<_>>()))];
+        if nd >= 2 {
+            for k in 1..nd { let rot: Vec<isize> = (0..nd).map(|i| spell((k + i) % nd, nd, (i + gi) % 3 == 0)).collect(); calls.push(format!("transpose={}", show_list(&rot))); }
+            calls.push("swapaxes=0=-1".into()); calls.push("moveaxis=0=-1".into()); calls.push("moveaxis=-1=0".into()); calls.push(format!("rollaxis={}=none", nd - 1));
+            if nd >= 3 { calls.push("swapaxes=1=2".into()); calls.push("rollaxis=-1=1".into()); calls.push("moveaxis=1=0".into()); calls.push(format!("moveaxis=0,1={},{}", nd - 1, nd - 2)); let p = rng.perm(nd); calls.push(format!("transpose={}", show_list(&p))); }
+        }
+        calls.dedup();
+        for c in calls { out(format!("giant {a} {c}")); }
+    }
+    // a refused call on a giant array, directly followed by a valid one
+    out("giant iota:3,400001 swapaxes=0=2".into()); out("giant iota:3,400001 transpose=1,1".into()); out("giant iota:3,400001 swapaxes=0=1".into());
+    // above 2^24 elements (lengths that `as f32` arithmetic no longer represents exactly): the u8 image only, thorough only
+    if thorough { out("giant8 iota:16777219 transpose=none".into()); out("giant8 iota:4097,4099 transpose=none".into()); out("giant8 iota:3,5592407 moveaxis=0=1".into()); out("giant8 iota:257,255,257 transpose=2,0,1".into()); }
     out("audit".into());
 }
 
@@ -348,8 +448,11 @@ fn class<T: ArrayElement>(o: &Out<T>) -> &'static str { match o { Err(()) => "pa
 
 /// the same steps on the image of the tag array in element type `T`, both receivers; the result must be the image of the i64 result
 fn image<T: ArrayElement>(label: &str, shape: &[usize], tags: &[i64], steps: &[Call], canon: &Out<i64>, from: impl Fn(i64) -> T, same: impl Fn(&T, &T) -> bool) -> Option<String> {
+    image_on(&[false, true], label, shape, tags, steps, canon, from, same)
+}
+fn image_on<T: ArrayElement>(receivers: &[bool], label: &str, shape: &[usize], tags: &[i64], steps: &[Call], canon: &Out<i64>, from: impl Fn(i64) -> T, same: impl Fn(&T, &T) -> bool) -> Option<String> {
     let a: Array<T> = Array::new(tags.iter().map(|&t| from(t)).collect(), shape.to_vec()).expect("harness: array literal");
-    for chained in [false, true] {
+    for &chained in receivers {
         let recv = if chained { "Ok(array) receiver" } else { "plain receiver" };
         let got = run(&a, steps, chained);
         if class(&got) != class(canon) { return Some(format!("TYPE-DIVERGENCE {label}, {recv}: outcome class {} instead of {}", class(&got), class(canon))); }
@@ -367,6 +470,59 @@ fn image<T: ArrayElement>(label: &str, shape: &[usize], tags: &[i64], steps: &[C
 /// f64 value classes by tag: -0.0, +0.0, NaN, the smallest subnormal, infinities, ordinary values
 fn special_f64(t: i64) -> f64 {
     match t.rem_euclid(8) { 0 => -0.0, 1 => t as f64, 2 => f64::NAN, 3 => -(t as f64) - 0.5, 4 => f64::from_bits(1), 5 => 0.0, 6 => f64::NEG_INFINITY, _ => f64::from_bits(0xFFF8_0000_0000_0001) }
+}
+
+// ------------------------------------------------------------------------------------------------ element layouts (part 3, class 12)
+
+/// Element types by SIZE: lib.rs gives 12 bytes (`T3`), 3 bytes (`T3b`) and 32 bytes / not `Copy` (`TW`); the other images of this
+/// bin cover 1, 2?, 4, 8 and 24 (String) bytes.  These add 2, 5, 6, 9, 16, 20, 36, 40 and 48 bytes, so that a tile / block / path
+/// chosen from `size_of::<T>()` (64 / size, size > 24, size.is_power_of_two(), …) meets a size on every side of its decision.
+type L2 = i16;
+type L5 = Tuple2<T3b, Tuple2<u8, u8>>;
+type L6 = Tuple3<i16, i16, i16>;
+type L9 = Tuple3<T3b, T3b, T3b>;
+type L16 = Tuple2<i64, u64>;
+type L20 = Tuple2<T3, Tuple2<i32, i32>>;
+type L36 = Tuple3<T3, T3, T3>;
+type L40 = Tuple2<String, Tuple2<i64, i64>>;
+type L48 = Tuple2<String, String>;
+const _: () = assert!(std::mem::size_of::<T3>() == 12 && std::mem::size_of::<T3b>() == 3 && std::mem::size_of::<TW>() == 32);
+const _: () = assert!(std::mem::size_of::<L5>() == 5 && std::mem::size_of::<L6>() == 6 && std::mem::size_of::<L9>() == 9 && std::mem::size_of::<L16>() == 16);
+const _: () = assert!(std::mem::size_of::<L20>() == 20 && std::mem::size_of::<L36>() == 36 && std::mem::size_of::<L40>() == 40 && std::mem::size_of::<L48>() == 48);
+fn tag_l2(t: i64) -> L2 { (t as i16) ^ 0x2AAA }
+fn tag_l5(t: i64) -> L5 { Tuple2(tag_t3b(t), Tuple2(tag_u8(t + 7), tag_u8(3 * t))) }
+fn tag_l6(t: i64) -> L6 { Tuple3(t as i16, (t as i16).wrapping_neg(), (t as i16) ^ 0x155) }
+fn tag_l9(t: i64) -> L9 { Tuple3(tag_t3b(t), tag_t3b(t + 1), tag_t3b(2 * t)) }
+fn tag_l16(t: i64) -> L16 { Tuple2(t, u64::MAX - (t.rem_euclid(1 << 40) as u64)) }
+fn tag_l20(t: i64) -> L20 { Tuple2(tag_t3(t), Tuple2(t as i32, !(t as i32))) }
+fn tag_l36(t: i64) -> L36 { Tuple3(tag_t3(t), tag_t3(t + 1), tag_t3(-t)) }
+fn tag_l40(t: i64) -> L40 { Tuple2(format!("w{t}"), Tuple2(t, -t)) }
+fn tag_l48(t: i64) -> L48 { Tuple2(format!("a{t}"), format!("{t}b")) }
+
+/// the odd-layout images of one case.  `lib3` = the three types of lib.rs on these receivers; `extra` = which of the further sizes
+/// (a rotating choice of `how_many` of the nine, both receivers alternating) — every case gets some, every size gets thousands of cases
+fn layout_images(shape: &[usize], tags: &[i64], steps: &[Call], canon: &Out<i64>, lib3: &[bool], pick: u64, how_many: usize) -> Option<String> {
+    let mut div = None
+        .or_else(|| image_on(lib3, "Tuple3<i32,i32,i32> (12 bytes)", shape, tags, steps, canon, tag_t3, |x, y| x == y))
+        .or_else(|| image_on(lib3, "Tuple3<u8,u8,u8> (3 bytes)", shape, tags, steps, canon, tag_t3b, |x, y| x == y))
+        .or_else(|| image_on(lib3, "Tuple2<String,i32> (32 bytes, not Copy)", shape, tags, steps, canon, tag_tw, |x, y| x == y));
+    for k in 0..how_many {
+        if div.is_some() { break; }
+        let which = (pick as usize + k * 4) % 9;
+        let rec: &[bool] = if (pick >> 8).wrapping_add(k as u64) % 2 == 0 { &[false] } else { &[true] };
+        div = match which {
+            0 => image_on(rec, "i16 (2 bytes)", shape, tags, steps, canon, tag_l2, |x, y| x == y),
+            1 => image_on(rec, "Tuple2<Tuple3<u8,u8,u8>,Tuple2<u8,u8>> (5 bytes)", shape, tags, steps, canon, tag_l5, |x, y| x == y),
+            2 => image_on(rec, "Tuple3<i16,i16,i16> (6 bytes)", shape, tags, steps, canon, tag_l6, |x, y| x == y),
+            3 => image_on(rec, "Tuple3 of three Tuple3<u8,u8,u8> (9 bytes)", shape, tags, steps, canon, tag_l9, |x, y| x == y),
+            4 => image_on(rec, "Tuple2<i64,u64> (16 bytes)", shape, tags, steps, canon, tag_l16, |x, y| x == y),
+            5 => image_on(rec, "Tuple2<Tuple3<i32,i32,i32>,Tuple2<i32,i32>> (20 bytes)", shape, tags, steps, canon, tag_l20, |x, y| x == y),
+            6 => image_on(rec, "Tuple3 of three Tuple3<i32,i32,i32> (36 bytes)", shape, tags, steps, canon, tag_l36, |x, y| x == y),
+            7 => image_on(rec, "Tuple2<String,Tuple2<i64,i64>> (40 bytes, not Copy)", shape, tags, steps, canon, tag_l40, |x, y| x == y),
+            _ => image_on(rec, "Tuple2<String,String> (48 bytes, not Copy)", shape, tags, steps, canon, tag_l48, |x, y| x == y),
+        };
+    }
+    div.map(|d: String| d.replacen("TYPE-DIVERGENCE", "LAYOUT-DIVERGENCE", 1))
 }
 
 // ------------------------------------------------------------------------------------------------ native reference
@@ -408,19 +564,32 @@ fn native_order(nd: usize, call: &Call) -> Result<Vec<usize>, ()> {
     if is_perm(&o, nd) { Ok(o) } else { Err(()) }
 }
 
-/// out[coordinates c] = in[coordinates c', c'[order[k]] = c[k]] — one division chain per output element, nothing clever
-fn native_gather(shape: &[usize], tags: &[i64], order: &[usize]) -> (Vec<usize>, Vec<i64>) {
-    let nd = shape.len();
-    let out_shape: Vec<usize> = order.iter().map(|&o| shape[o]).collect();
-    let mut stride = vec![1usize; nd];
-    for k in (0..nd.saturating_sub(1)).rev() { stride[k] = stride[k + 1] * shape[k + 1]; }
-    let mut out = Vec::with_capacity(tags.len());
-    for o in 0..tags.len() {
-        let (mut rem, mut pos) = (o, 0usize);
-        for k in (0..nd).rev() { let c = rem % out_shape[k]; rem /= out_shape[k]; pos += c * stride[order[k]]; }
-        out.push(tags[pos]);
+/// out[coordinates c] = in[coordinates c', c'[order[k]] = c[k]] — one division chain per output element, nothing clever.
+/// `at(o)` = the flat INPUT position whose element belongs at flat OUTPUT position `o`.
+struct Gather { out_shape: Vec<usize>, stride_by_out: Vec<usize> }
+impl Gather {
+    fn new(shape: &[usize], order: &[usize]) -> Gather {
+        let nd = shape.len();
+        let mut stride = vec![1usize; nd];
+        for k in (0..nd.saturating_sub(1)).rev() { stride[k] = stride[k + 1] * shape[k + 1]; }
+        Gather { out_shape: order.iter().map(|&o| shape[o]).collect(), stride_by_out: order.iter().map(|&o| stride[o]).collect() }
     }
-    (out_shape, out)
+    #[inline]
+    fn at(&self, o: usize) -> usize {
+        let (mut rem, mut pos) = (o, 0usize);
+        for k in (0..self.out_shape.len()).rev() { let c = rem % self.out_shape[k]; rem /= self.out_shape[k]; pos += c * self.stride_by_out[k]; }
+        pos
+    }
+    fn coords(&self, o: usize) -> Vec<usize> {
+        let mut rem = o; let mut c = vec![0; self.out_shape.len()];
+        for k in (0..self.out_shape.len()).rev() { c[k] = rem % self.out_shape[k]; rem /= self.out_shape[k]; }
+        c
+    }
+}
+fn native_gather(shape: &[usize], tags: &[i64], order: &[usize]) -> (Vec<usize>, Vec<i64>) {
+    let g = Gather::new(shape, order);
+    let out = (0..tags.len()).map(|o| tags[g.at(o)]).collect();
+    (g.out_shape, out)
 }
 
 fn native_steps(shape: &[usize], tags: &[i64], steps: &[Call]) -> Result<(Vec<usize>, Vec<i64>), ()> {
@@ -435,6 +604,28 @@ static NATIVE_ONLY: std::sync::atomic::AtomicUsize = std::sync::atomic::AtomicUs
 
 // ------------------------------------------------------------------------------------------------ executor
 
+/// a giant array whose flat element k is `from(k)` (never written into a case line, never formatted)
+fn giant_image<T: ArrayElement>(shape: &[usize], from: impl Fn(usize) -> T) -> Array<T> {
+    let n: usize = shape.iter().product();
+    Array::new((0..n).map(from).collect(), shape.to_vec()).expect("harness: giant array")
+}
+/// compare a giant result in place: shape, element count, then every element against `image(Gather::at(o))`; the report names
+/// the first differing position only (and how many positions differ)
+fn giant_judge<T: ArrayElement>(label: &str, r: std::thread::Result<Result<Array<T>, ArrayError>>, g: &Gather, n: usize, image: impl Fn(usize) -> T) -> Option<Option<Verdict>> {
+    let arr = match r {
+        Err(_) => return Some(mismatch("panic".into(), format!("{label}: the call panics; the model accepts it"))),
+        Ok(Err(e)) => return Some(mismatch(res_arr::<i64>(&Err(e)), format!("{label}: the call is refused; the model accepts it"))),
+        Ok(Ok(a)) => a,
+    };
+    let (gs, ge) = (arr.get_shape().unwrap(), arr.get_elements().unwrap());
+    drop(arr);
+    if gs != g.out_shape || ge.len() != n { return Some(mismatch(format!("ok {}:… ({} elements)", show_list(&gs), ge.len()), format!("{label}: result shape {:?} with {} elements, expected shape {:?} with {n}", gs, ge.len(), g.out_shape))); }
+    let mut first: Option<usize> = None; let mut bad = 0usize;
+    for o in 0..n { if ge[o] != image(g.at(o)) { bad += 1; if first.is_none() { first = Some(o); } } }
+    first.map(|o| mismatch(format!("ok {}:… ({n} elements), flat position {o} (coordinates {:?}) holds {:?}", show_list(&gs), g.coords(o), ge[o]),
+        format!("{label}: {bad} of {n} positions differ from the native gather (validated against the model on every ordinary case of this run); first at flat position {o} = coordinates {:?}: {:?} instead of {:?} (the element of input flat position {})", g.coords(o), ge[o], image(g.at(o)), g.at(o))))
+}
+
 fn parse_steps(text: &str) -> Option<Vec<Call>> {
     if text == "-" { return Some(vec![]); }
     let mut v = vec![];
@@ -444,7 +635,9 @@ fn parse_steps(text: &str) -> Option<Vec<Call>> {
 
 /// what the real crate does: the i64 plain run as text; a difference on the Ok(array) receiver or on another element type is put
 /// in front (and then fails the comparison).  `all_types` = all nine images, otherwise u8 / f64(-0.0) / String.
-fn observe(shape: &[usize], tags: &[i64], steps: &[Call], all_types: bool) -> String {
+fn observe(shape: &[usize], tags: &[i64], steps: &[Call], all_types: bool) -> String { observe_l(shape, tags, steps, all_types, &[false], shape.iter().sum::<usize>() as u64 * 7 + steps.len() as u64, 1) }
+/// `lib3` / `pick` / `extra`: the odd-layout images (see `layout_images`)
+fn observe_l(shape: &[usize], tags: &[i64], steps: &[Call], all_types: bool, lib3: &[bool], pick: u64, extra: usize) -> String {
     let a: Array<i64> = Array::new(tags.to_vec(), shape.to_vec()).expect("harness: array literal");
     let canon = run(&a, steps, false);
     let obs = match &canon { Err(()) => "panic".to_string(), Ok(r) => { if let Ok(x) = r { if !consistent(x) { return "ok INCONSISTENT".into(); } } res_arr(r) } };
@@ -462,6 +655,7 @@ fn observe(shape: &[usize], tags: &[i64], steps: &[Call], all_types: bool) -> St
         .or_else(|| image("bool", shape, tags, steps, &canon, |t| t.rem_euclid(2) == 1, |x, y| x == y))
         .or_else(|| image("char", shape, tags, steps, &canon, |t| char::from_u32(0x30 + t.rem_euclid(0x700) as u32).unwrap_or('?'), |x, y| x == y));
     }
+    div = div.or_else(|| layout_images(shape, tags, steps, &canon, lib3, pick, extra));
     match div { Some(d) => format!("{d}; i64 plain run: {}", truncate(&obs, 300)), None => obs }
 }
 /// the i64 plain run only
@@ -543,6 +737,52 @@ fn exec(op: &str, args: &[&str], expected: &str) -> Option<Verdict> {
             let lo = at.saturating_sub(40);
             return mismatch(truncate(&obs, 400), format!("differs from the expected answer at byte {at}: real `…{}`, expected `…{}`", truncate(obs.get(lo..).unwrap_or(""), 120), truncate(want.get(lo..).unwrap_or(""), 120)));
         }
+        // giant iota:SHAPE step (part 3, class 11): more than 2^20 elements.  The model answers the axis order and the result shape;
+        // the elements are compared IN PLACE with the native gather formula (`Gather::at`, the very function behind `native_gather`,
+        // which is validated against the model's full answer on every ordinary case of this run).  Runs: i64 tags on the plain
+        // receiver, the u8 image on Ok(array), and — for a third of the lines — the 12-byte tuple image.  `giant8`: the u8 image only.
+        "giant" | "giant8" => {
+            if args.len() != 2 { return None; }
+            let shape = parse_usize_list(args[0].strip_prefix("iota:")?);
+            let steps = parse_steps(args[1])?;
+            if steps.len() != 1 { return None; }
+            let (nd, n) = (shape.len(), shape.iter().product::<usize>());
+            let nord = native_order(nd, &steps[0]);
+            let call = &steps[0];
+            let Some(plan) = expected.strip_prefix("plan ") else {
+                // a refused call on a giant array: outcome class only (and the native reference must refuse as well)
+                let a = giant_image(&shape, |k| k as u8);
+                let obs = match catch_unwind(AssertUnwindSafe(|| call.on_array(&a))) { Err(_) => "panic".to_string(), Ok(Ok(r)) => format!("ok {}:… ({} elements)", show_list(&r.get_shape().unwrap()), r.len().unwrap()), Ok(Err(e)) => res_arr::<i64>(&Err(e)) };
+                if class_of(expected) == "err" && nord.is_ok() { return mismatch(obs, "ORACLE-DIVERGENCE the native reference accepts the call, the model refuses".into()); }
+                return Some(compare_default(obs, expected));
+            };
+            let (psh, pord) = plan.split_once('|')?;
+            let (psh, pord) = (parse_usize_list(psh), parse_usize_list(pord));
+            match &nord { Ok(o) if *o == pord => {}, other => return mismatch("-".into(), format!("ORACLE-DIVERGENCE native axis order {:?}, the model's {:?}", other, pord)) }
+            let g = Gather::new(&shape, &pord);
+            if g.out_shape != psh { return mismatch("-".into(), format!("ORACLE-DIVERGENCE native result shape {:?}, the model's {:?}", g.out_shape, psh)); }
+            NATIVE_ONLY.fetch_add(1, std::sync::atomic::Ordering::Relaxed);
+            let mut ran: Vec<&str> = vec![];
+            if op == "giant" {
+                let a = iota_tags(&shape);
+                let r = catch_unwind(AssertUnwindSafe(|| call.on_array(&a))); drop(a);
+                if let Some(m) = giant_judge("i64 tags, plain receiver", r, &g, n, |p| p as i64) { return m; }
+                ran.push("i64 plain");
+            }
+            {
+                let a = Ok(giant_image(&shape, |k| tag_u8(k as i64)));
+                let r = catch_unwind(AssertUnwindSafe(|| call.on_result(&a))); drop(a);
+                if let Some(m) = giant_judge("u8 image, Ok(array) receiver", r, &g, n, |p| tag_u8(p as i64)) { return m; }
+                ran.push("u8 on Ok(array)");
+            }
+            if op == "giant" && fnv(&format!("{} {}", args[0], args[1])) % 3 == 0 {
+                let a = giant_image(&shape, |k| tag_t3(k as i64));
+                let r = catch_unwind(AssertUnwindSafe(|| call.on_array(&a))); drop(a);
+                if let Some(m) = giant_judge("Tuple3<i32,i32,i32> (12 bytes) image, plain receiver", r, &g, n, |p| tag_t3(p as i64)) { return m; }
+                ran.push("12-byte tuple");
+            }
+            return Some(Verdict::Match(format!("ok {}:… ({n} elements; {}: all equal to the native gather, model order {})", show_list(&psh), ran.join(", "), show_list(&pord))));
+        }
         // pair ARRA ARRB step: on a FRESH thread A, B, A; on another fresh thread B, A, B — every run judged
         "pair" => {
             if args.len() != 3 { return None; }
@@ -583,12 +823,19 @@ fn exec(op: &str, args: &[&str], expected: &str) -> Option<Verdict> {
     if let Verdict::Mismatch { observed, detail } = compare_default(plain.clone(), expected) { PREV.with(|p| *p.borrow_mut() = None); return Some(Verdict::Mismatch { observed, detail }); }
     // the native reference is validated against the model's answer on this case
     if let Err(d) = wanted(&shape, &tags, &steps, expected) { return mismatch(plain, d); }
-    // both receivers and every other element type
-    let obs = observe(&shape, &tags, &steps, true);
-    let v = compare_default(obs, expected);
-    if let Verdict::Mismatch { .. } = v { return Some(v); }
     let line = format!("{op} {}", args.join(" "));
     let n = tags.len();
+    // part 3 (12) element layouts: the single call on the plain receiver through `on_layouts_arr!` (i64 tags against their 12-byte,
+    // 3-byte and 32-byte non-Copy images); the Ok(array) receiver, chains and nine further sizes inside `observe_l`
+    let single = op != "chain";
+    if single {
+        let lay = on_layouts_arr!(args[0], |a| steps[0].on_array(&a));
+        if let Verdict::Mismatch { observed, detail } = compare_default(lay, expected) { return Some(Verdict::Mismatch { observed: truncate(&observed, 600), detail }); }
+    }
+    // both receivers and every other element type
+    let obs = observe_l(&shape, &tags, &steps, true, if single { &[true] } else { &[false, true] }, fnv(&line), if n <= 1500 { 2 } else { 1 });
+    let v = compare_default(obs, expected);
+    if let Verdict::Mismatch { .. } = v { return Some(v); }
     // A-B-A inside the case: the same call on a partner shape a weak cache key could confuse with this one (judged by the native
     // reference), then this case again
     if n >= 2 && n <= 700 {
@@ -626,7 +873,11 @@ fn exec(op: &str, args: &[&str], expected: &str) -> Option<Verdict> {
 }
 
 /// non-trivial: at least two axes longer than one (a permutation can then really reorder elements)
-fn nontrivial(op: &str, args: &[&str]) -> bool { op != "audit" && parse_arr_raw(args[0]).0.iter().filter(|&&d| d > 1).count() >= 2 }
+fn nontrivial(op: &str, args: &[&str]) -> bool {
+    if op == "audit" { return false; }
+    let shape = match args[0].strip_prefix("iota:") { Some(sh) => parse_usize_list(sh), None => parse_arr_raw(args[0]).0 };
+    shape.iter().filter(|&&d| d > 1).count() >= 2
+}
 
 fn main() {
     harness_main(Spec { prop: "C06", gen, exec, nontrivial, hang_secs: 20,
